@@ -6,7 +6,7 @@ MaxAtts = {3}
 Caps = {5}
 CodeSets = {{14}}
 BufLimits = {20}
-ThrMaxs = {0}
+ThrMaxs = {0, 4}
 Boffs = {1}
 PBSet = {"none", "p7", "neg"}
 Trigs = {"open", "late"}
